@@ -18,7 +18,7 @@ from harness.glue import xz as gxz, lzma as glzma, lzma2 as glzma2, alone as gal
 
 MF = {"hc3": lz.MF_HC3, "hc4": lz.MF_HC4, "bt2": lz.MF_BT2, "bt3": lz.MF_BT3, "bt4": lz.MF_BT4}
 MODE = {"fast": lz.MODE_FAST, "normal": lz.MODE_NORMAL}
-XZ_ENTRIES = ("easy", "stream", "stream_mt", "block", "easy_buffer", "stream_buffer", "block_buffer")
+XZ_ENTRIES = ("easy", "stream", "stream_mt", "block", "easy_buffer", "stream_buffer", "block_buffer", "index_enc")
 LZMA1_ENTRIES = ("alone", "raw1", "raw1_buffer", "microlzma")
 PRESET_ONLY = ("easy", "easy_buffer")
 ALL_ENTRIES = XZ_ENTRIES + LZMA1_ENTRIES + ("raw2", "raw_buffer")
@@ -313,6 +313,11 @@ def encode(plan, data, bias=0, seed=1):
         grant = None
         if outslice == "small":
             grant = lambda: rng.choice([1, 2, 7, 64, 1000])
+        elif outslice == "ones":
+            grant = lambda: 1                      # every output byte in its own lzma_code() call
+        if plan.get("ogrants"):                    # explicit output grants, then everything
+            _g = list(plan["ogrants"])
+            grant = lambda: (_g.pop(0) if _g else 1 << 30)
         def init_check(r, what):
             if r != lz.OK:
                 raise EncError("enc:init:%s:%s" % (e, lz.retname(r)), "%s refused a valid configuration: %s plan=%r" % (
@@ -430,6 +435,8 @@ def encode(plan, data, bias=0, seed=1):
             if R.total_out != len(out) or (e != "microlzma" and R.total_in != ip):
                 raise EncError("enc:totals:%s" % e, "total_in/total_out %d/%d do not match the bytes moved %d/%d" % (
                     R.total_in, R.total_out, ip, len(out)))
+        elif e == "index_enc":
+            encode_index_enc(R, plan, info, data, grant)
         else:
             # single-call encoders
             ob = lz.Buf(cap)
@@ -464,6 +471,61 @@ def encode(plan, data, bias=0, seed=1):
         R.body = R.out
         R.out = wrap_block(R)
     return R
+
+def encode_index_enc(R, plan, info, data, grant):
+    """Entry 'index_enc': Blocks from lzma_block_buffer_encode (plan['nblocks'] equal pieces), the Index from the
+    multi-call lzma_index_encoder driven with the plan's output grants, Stream Header/Footer from the public encoders."""
+    L = lz.L()
+    nb = max(1, int(plan.get("nblocks", 1)))
+    n = len(data)
+    cuts = [n * k // nb for k in range(nb + 1)]
+    sf = lz.StreamFlags(); sf.version = 0; sf.check = info["check"]
+    hdr = lz.Buf(12)
+    if L.lzma_stream_header_encode(C.byref(sf), hdr.addr) != lz.OK:
+        raise EncError("enc:stream_header_encode", "lzma_stream_header_encode failed")
+    idx = L.lzma_index_init(None)
+    body = b""
+    try:
+        for k in range(nb):
+            piece = data[cuts[k]:cuts[k + 1]]
+            b = lz.Block(); b.version = 1; b.check = info["check"]
+            b.filters = C.cast(info["filters"], C.POINTER(lz.Filter))
+            cap = L.lzma_block_buffer_bound(len(piece))
+            ob = lz.Buf(cap); ib = lz.Buf(len(piece), piece); pos = C.c_size_t(0)
+            r = L.lzma_block_buffer_encode(C.byref(b), None, ib.addr, len(piece), ob.addr, C.byref(pos), cap)
+            if r != lz.OK or not ob.guards_ok():
+                raise EncError("enc:ret:block_buffer:%s" % lz.retname(r), "lzma_block_buffer_encode failed with out_size = bound")
+            body += ob.data(pos.value)
+            r = L.lzma_index_append(idx, None, L.lzma_block_unpadded_size(C.byref(b)), b.uncompressed_size)
+            if r != lz.OK:
+                raise EncError("enc:index_append:" + lz.retname(r), "lzma_index_append failed")
+        isz = L.lzma_index_size(idx)
+        c = lz.Coder()
+        r = c.init("lzma_index_encoder", idx)
+        if r != lz.OK:
+            raise EncError("enc:init:index_enc:" + lz.retname(r), "lzma_index_encoder refused the Index")
+        ob = lz.Buf(isz + 64); op = 0
+        st = c.strm
+        for _ in range(10 * (isz + 64)):
+            g = min(isz + 64 - op, grant() if grant else isz + 64)
+            st.next_in = None; st.avail_in = 0
+            st.next_out = ob.addr + op; st.avail_out = g
+            r = c.code_raw(lz.RUN)
+            op += g - st.avail_out
+            if r != lz.OK and not (r == lz.BUF_ERROR and g == 0):
+                break
+        c.end()
+        if not ob.guards_ok():
+            raise EncError("enc:guard", "lzma_index_encoder wrote outside the buffer")
+        R.ret = r
+        sf.backward_size = isz
+        ftr = lz.Buf(12)
+        if L.lzma_stream_footer_encode(C.byref(sf), ftr.addr) != lz.OK:
+            raise EncError("enc:stream_footer_encode", "lzma_stream_footer_encode failed")
+        R.out = hdr.data() + body + ob.data(op) + ftr.data()
+    finally:
+        L.lzma_index_end(idx, None)
+    R.consumed = n; R.segs = [(n, lz.FINISH)]; R.total_in = n; R.total_out = len(R.out)
 
 # ------------------------------------------------------------------------------------------- Block -> Stream
 def wrap_block(R):
